@@ -46,6 +46,28 @@ fn finds(log: &mut Log, t: &T, qs: &[(i64, i64)]) {
     });
 }
 
+/// replace the tree by a copy of itself (clone / serde round trip / clone_from into a used tree)
+fn copy(log: &mut Log, t: &mut T, how: u64) {
+    log.call("copy", json!({"how": how % 3}), || {
+        match how % 3 {
+            0 => {
+                let c = t.clone();
+                *t = c;
+            }
+            1 => {
+                let txt = serde_json::to_string(&*t).unwrap();
+                *t = serde_json::from_str(&txt).unwrap();
+            }
+            _ => {
+                let mut other: T = vec![(1i64..9i64, 777u32)].into_iter().collect();
+                other.clone_from(t);
+                *t = other;
+            }
+        }
+        json!({})
+    });
+}
+
 fn grid_queries(rng: &mut Rng, lo: i64, hi: i64, maxq: usize) -> Vec<(i64, i64)> {
     let mut v = vec![];
     if (hi - lo + 3) * (hi - lo + 2) / 2 <= maxq as i64 {
@@ -139,6 +161,11 @@ pub fn drive(log: &mut Log) {
             t.index();
             entries_json(&t)
         });
+        if rng.chance(1, 4) {
+            // an indexed tree is copied: the copy is indexed and answers alike
+            copy(log, &mut t, rng.below(3));
+            log.oblige("tree_copied_mid_history");
+        }
         let maxq = if n <= 12 { 120 } else { 25 };
         let qs = grid_queries(&mut rng, lo, hi, maxq);
         finds(log, &t, &qs);
@@ -161,6 +188,10 @@ pub fn drive(log: &mut Log) {
                     json!({})
                 });
                 id += 1;
+            }
+            if rng.chance(1, 4) {
+                // an un-indexed tree is copied: the copy still refuses queries
+                copy(log, &mut t, rng.below(3));
             }
             finds(log, &t, &[(lo, hi)]);
             log.oblige("insert_after_index_then_refused");
